@@ -80,7 +80,8 @@ def explore(res, tier):
            ("hoad with draws, two time steps", {"Model": "hoad", "HN": 2, "HTime": 2, "HOrders": {1}, "Hist": True}, HOAD_INV, 1)]
     if not q:
         pos += [("cmv n_clash=0 + irreducibility, 4 nodes", {"Node": n4, "MaxEdges": 3, "NClash": 0}, CMV_INV + CMV_ONCE, 5),
-                ("cmv n_clash=0, 5 nodes", {"Node": n5, "MaxEdges": 3, "NClash": 0}, CMV_INV, 8),
+                ("cmv n_clash=0, 5 nodes", {"Node": n5, "MaxEdges": 3, "NClash": 0}, CMV_INV, 6),
+                ("cmv n_clash=0, 4 hyperedges", {"Node": n4, "MaxEdges": 4, "NClash": 0}, CMV_INV, 4),
                 ("hoad orders {1,2}", {"Model": "hoad", "HN": 3, "HTime": 1, "HOrders": {1, 2}}, HOAD_INV, 3),
                 ("hoad 4 nodes order 2", {"Model": "hoad", "HN": 4, "HTime": 1, "HOrders": {2}}, HOAD_INV, 2),
                 ("hoad with draws, orders {1,2}", {"Model": "hoad", "HN": 2, "HTime": 1, "HOrders": {1, 2}, "Hist": True}, HOAD_INV, 1)]
